@@ -21,6 +21,7 @@ def run(S):
     D = S.decls()
     thresholds(S, D)
     monitor_closures(S, D)
+    late_claim_height(S, D)
     preimage_claim_height(S, D)
     try:
         from engine_k import runner as K
@@ -129,7 +130,7 @@ def monitor_closures(S, D):
         ANTI_REORG_DELAY confirmations (entry.height + 5 <= best height), and only a FundingSpendConfirmation.
     Replayed on a live monitor: force-closed channel with a pending dust HTLC, blocks connected / disconnected."""
     import re
-    if all(S._skip(o) for o in ('C11.c.retain_iff_still_in_chain', 'C11.c.funding_spend_final_after_delay', 'C11.c.other_events_ignored', 'C11.c.nopanic', 'C11.c.witness', 'C11.c.validate', 'C11.c.validate2', 'C11.c.nopanic2', 'C11.c.witness2')):
+    if all(S._skip(o) for o in ('C11.e.retain_iff_still_in_chain', 'C11.e.nopanic', 'C11.e.witness', 'C11.e.validate', 'C11.c.retain_iff_still_in_chain', 'C11.c.funding_spend_final_after_delay', 'C11.c.other_events_ignored', 'C11.c.nopanic', 'C11.c.witness', 'C11.c.validate', 'C11.c.validate2', 'C11.c.nopanic2', 'C11.c.witness2')):
         return
     key = lambda fn: re.search(r'\{closure@[^}]*\}', fn.params[0][1]).group(0)
     hidx = D.field_index('OnchainEventEntry', 'height', hint='channelmonitor')
@@ -158,6 +159,34 @@ def monitor_closures(S, D):
     S.no_panic('C11.c.nopanic', E, [], 'total', [b1])
     S.witness('C11.c.witness', E, [h == nh.t], keep)
     S.validate('C11.c.validate', E, b1, n=12, extra_vectors=[(100, 99 + k) for k in range(6)])
+    # ---- retain closure of best_block_updated (a reorg announced through the Confirm interface) ----
+    if not all(S._skip(o) for o in ('C11.e.retain_iff_still_in_chain', 'C11.e.nopanic', 'C11.e.witness', 'C11.e.validate')):
+        from .C10 import _closure_env
+        f3 = _find_fn(S, r'channelmonitor\.rs[^>]*>::best_block_updated::<[^(]*>::\{closure#0\}\(_1: &mut \{closure@[^}]*\}, _2: &&(?:\w+::)*OnchainEventEntry\)|channelmonitor\.rs[^>]*>::best_block_updated::\{closure#0\}\(_1: &mut \{closure@[^}]*\}, _2: &&?(?:\w+::)*OnchainEventEntry\)')
+        E3 = S.engine()
+        mem3 = {}
+        nh3 = E3.sym('new_tip_height', 'u32')
+        cn3 = E3.new_cell()
+        mem3[cn3] = nh3
+        env3 = _closure_env(E3, f3, mem3, {'height': X.Ref(cn3)})
+        entry3 = E3.sym('e', f3.params[1][1], mem3)
+        keep3 = X.zbool(S.call(E3, f3, [env3, entry3], mem3).t)
+        ev3 = entry3
+        while isinstance(ev3, X.Ref):
+            ev3 = E3.read_path(mem3[ev3.cell], ev3.path, mem3, True, 'spec')
+        h3 = E3.read_path(ev3, (('f', hidx, 'u32'),), mem3, True, 'spec').t
+
+        def line3(v):
+            hv, nv = v
+            r = max(-1, min(3, nv - hv))
+            return '1 %d 1 0' % (r + 1)
+        b3 = Binding('monitor_reorg_probe', [h3, nh3.t], [None, z3.If(keep3, 1, 0), None, None], line_fn=line3, which='oracle_tu', panic=panic_of(E3))
+        S.prove('C11.e.retain_iff_still_in_chain', E3, [], keep3 == (h3 <= nh3.t),
+                'when a reorganisation is announced through the Confirm interface (best_block_updated with a different block at a height not above the old tip), an on-chain event awaiting confirmations is kept iff the block it was seen in is at or below the new tip - the same rule as for blocks_disconnected, so the conclusion does not depend on how the chain was delivered',
+                [b3], bounds='every entry of the queue (any length), all u32 heights')
+        S.no_panic('C11.e.nopanic', E3, [], 'total', [b3])
+        S.witness('C11.e.witness', E3, [h3 == nh3.t], keep3)
+        S.validate('C11.e.validate', E3, b3, n=12, extra_vectors=[(100, 99 + k) for k in range(6)])
     # ---- funding-spend finality closure of get_onchain_failed_outbound_htlcs ---------------
     f2 = _find_fn(S, r'::get_onchain_failed_outbound_htlcs::\{closure#0\}::\{closure#0\}\(')
     E2 = S.engine()
@@ -208,11 +237,10 @@ def preimage_claim_height(S, D):
     f = _find_fn(S, r'::provide_payment_preimage::\{closure#\d+\}::\{closure#0\}\(_1: &mut \{closure@[^}]*\}, _2: &(?:\w+::)*OnchainEventEntry\)')
     E = S.engine()
     mem = {}
-    key = re.search(r'\{closure@[^}]*\}', f.params[0][1]).group(0)
-    cc = E.new_cell()
-    mem[cc] = X.Clo(key, [])
+    from .C10 import _closure_env
+    env = _closure_env(E, f, mem, {})       # whatever the closure captures (nothing today) is a fresh symbolic value
     entry = E.sym('e', f.params[1][1], mem)
-    rv = S.call(E, f, [X.Ref(cc), entry], mem)
+    rv = S.call(E, f, [env, entry], mem)
     hidx = D.field_index('OnchainEventEntry', 'height', hint='channelmonitor')
     eidx = D.field_index('OnchainEventEntry', 'event', hint='channelmonitor')
     ev = mem[entry.cell]
@@ -237,3 +265,99 @@ def preimage_claim_height(S, D):
     S.no_panic(ids[1], E, [], 'total', [b])
     S.witness(ids[2], E, [kind == FS], some)
     S.validate(ids[3], E, b, n=1, extra_vectors=[(FS,)])
+
+
+def late_claim_height(S, D):
+    """C11.f: provide_payment_preimage on a monitor whose funding output is already spent on chain: the claims it creates
+    spend outputs of the transaction that spent the funding output, so they must be registered at the height THAT
+    transaction confirmed at - a claim is retracted exactly when the block it is registered at is disconnected
+    (OnchainTxHandler::blocks_disconnected), and a claim registered at the current tip instead is lost in any reorg
+    of the tip although its input is untouched. Region from the funding scope look-up to the end of the function."""
+    import re
+    ids = ['C11.f.claims_registered_at_spend_height', 'C11.f.witness.holder', 'C11.f.witness.counterparty']
+    if all(S._skip(o) for o in ids):
+        return
+    f = S.fn('provide_payment_preimage', first_param='ChannelMonitorImpl')
+    E = S.engine(unwind=1)
+    mem = {}
+    calls = lambda rx: [b for b, (bd, t) in f.blocks.items() if t[0] == 'call' and re.search(rx, t[2])]
+    scope = calls(r'Option::<&(?:\w+::)*FundingScope>::unwrap_or$')
+    if len(scope) != 1:
+        raise X.Unsupported('provide_payment_preimage: %d funding-scope look-ups' % len(scope))
+    start = f.blocks[scope[0]][1][4]
+    dbg = {}
+    for n, place in f.debug_all:
+        dbg.setdefault(n, place)
+    loc = lambda n: int(re.search(r'_(\d+)', str(dbg[n])).group(1))
+    known = z3.Bool('funding_spend.still_awaiting_threshold')
+    hspend = E.sym('funding_spend.height', 'u32')
+    best = E.sym('best_block.height', 'u32')
+    ARD = 6
+    # the spend is in the best chain; once it has ANTI_REORG_DELAY confirmations the monitor forgets its height
+    E.assume(z3.And(hspend.t >= 1, hspend.t <= best.t, known == (best.t < hspend.t + ARD - 1)))
+    CM = D.struct_fields('ChannelMonitorImpl')
+    BL = D.struct_fields('BlockLocator')
+    self_c = E.new_cell()
+    mem[self_c] = X.Adt('ChannelMonitorImpl', {CM.index('best_block'): X.Adt('BlockLocator', {BL.index('height'): best}, base='best_block')}, base='monitor')
+    fs_c = E.new_cell()
+    mem[fs_c] = X.Adt('FundingScope', {}, base='funding')
+    holder_claims, counterparty_claims, registered = [], [], []
+
+    def h_holder(E_, m, func, argv, guard, mem_, dty, caller):
+        holder_claims.append((X.zbool(guard), argv[3]))
+        return X.Tup([X.Opaque('holder claim requests'), X.Opaque('script')])
+
+    def h_cp(E_, m, func, argv, guard, mem_, dty, caller):
+        counterparty_claims.append((X.zbool(guard), argv[-1]))
+        return X.Opaque('counterparty claim requests')
+
+    def h_reg(E_, m, func, argv, guard, mem_, dty, caller):
+        registered.append((X.zbool(guard), argv[2], argv[3]))
+        return X.UNIT
+    for rx, h in [
+        (r'Txid as PartialEq>::eq$', lambda *a: X.B(z3.Bool('txid_eq!%d' % next(E.nfresh)))),
+        (r'HashMap::<.*Txid, .*>::get::<', lambda *a: X.En('Option', E.sym('map_hit!%d' % next(E.nfresh), 'u8').t % 2, {1: [X.Opaque('map value')]})),
+        (r'Option::<.*ScriptBuf.*>::is_some$', lambda *a: X.B(z3.Bool('holder_commitment_broadcast!%d' % next(E.nfresh)))),
+        (r'HolderCommitmentTransaction::trust$', lambda *a: X.Opaque('trusted holder tx')),
+        (r'TrustedCommitmentTransaction::<.*>::txid$|TrustedCommitmentTransaction<.*>::txid$', lambda *a: X.Opaque('txid')),
+        (r'ChannelMonitorImpl::<.*>::get_broadcasted_holder_claims$', h_holder),
+        (r'ChannelMonitorImpl::<.*>::get_counterparty_output_claims_for_preimage$', h_cp),
+        (r'ChannelMonitorImpl::<.*>::closure_conf_target$', lambda *a: X.Opaque('conf target')),
+        (r'OnchainTxHandler::<.*>::update_claims_view_from_requests::<', h_reg),
+        (r'ScriptBuf as (?:std::ops::)?Deref>::deref$', lambda *a: X.Opaque('script')),
+        (r'^format$|^must_use::<', lambda *a: X.Opaque('string')),
+        (r'Arguments::<.*>::from_str$|Arguments::<.*>::new', lambda *a: X.Opaque('fmt args')),
+        (r'Record::<.*>::new', lambda *a: X.Opaque('log record')),
+        (r'Logger>::log$', lambda *a: X.UNIT),
+        (r'^std::mem::drop::<|drop_in_place', lambda *a: X.UNIT),
+    ]:
+        E.models.insert(0, (re.compile(rx), h))
+    init = {1: X.Ref(self_c), f.blocks[scope[0]][1][1][1]: X.Ref(fs_c),
+            loc('confirmed_spend_height'): X.En('Option', z3.If(known, 1, 0), {1: [hspend]})}
+    args = [X.Ref(self_c)] + [X.Opaque('arg%d' % i) for i in range(1, len(f.params))]
+    runr = X.FnRun(E, f, args, True, mem)
+    E.depth += 1
+    runr.run(start_bb=start, init=init)
+    E.depth -= 1
+    limit = z3.If(known, hspend.t, best.t - (ARD - 1))         # the spend confirmed at or below this height
+    conj = []
+    for g, h in holder_claims:
+        conj.append(z3.Implies(g, z3.And(X.zint(h.t) <= limit, z3.Implies(known, X.zint(h.t) == hspend.t))))
+    for g, h in counterparty_claims:
+        some = X.zint(h.d) == 1
+        hv = h.vs[1][0] if isinstance(h, X.En) and 1 in h.vs else None
+        conj.append(z3.Implies(g, z3.And(some == known, z3.Implies(some, X.zint(hv.t) == hspend.t) if hv is not None else z3.Not(some))))
+    for g, conf, cur in registered:
+        conj.append(z3.Implies(g, z3.And(X.zint(conf.t) <= limit, z3.Implies(known, X.zint(conf.t) == hspend.t), X.zint(cur.t) == best.t)))
+    n_reg = z3.Sum([z3.If(g, 1, 0) for g, *_ in registered]) if registered else z3.IntVal(0)
+    any_holder = z3.Or(*[g for g, h in holder_claims]) if holder_claims else z3.BoolVal(False)
+    any_cp = z3.Or(*[g for g, h in counterparty_claims]) if counterparty_claims else z3.BoolVal(False)
+    b = Binding('late_preimage_reorg_battery', [z3.IntVal(1)], [None], parse=lambda t: [0 if t[0] == '0' else 1], line_fn=lambda v: '1', which='oracle_tu', via_solver=True, domain=[(1, 1)], panic=False)
+    claim = z3.And(*conj, n_reg <= 1)
+    b.outs = [z3.If(claim, 0, 1)]
+    S.prove(ids[0], E, [], claim,
+            'a preimage that arrives after the funding output was spent on chain yields claims registered at the height the spending transaction confirmed at (its own height while the monitor still tracks it; no higher than tip - 5 once it is irrevocably confirmed), for the counterparty\'s commitment and for our own alike - so a reorganisation that leaves that transaction in place never makes the monitor forget the claim, and one that removes it retracts the claim',
+            [b], given_no_panic=True, bounds='region of provide_payment_preimage from the funding-scope look-up to its end; which commitment confirmed, map look-ups and txid comparisons free; claim construction and registration recording stubs')
+    S.witness(ids[1], E, [], any_holder)
+    S.witness(ids[2], E, [], any_cp)
+    S.validate('C11.f.validate', E, Binding('late_preimage_reorg_battery', [z3.IntVal(1)], [z3.IntVal(0)], parse=lambda t: [0 if t[0] == '0' else 1], line_fn=lambda v: '1', which='oracle_tu', via_solver=True, domain=[(1, 1)], panic=False), n=1, extra_vectors=[(1,)])
